@@ -12,7 +12,8 @@ operations of `Mutiny/Model/U32.lean` exactly where the source uses them:
 * `slot_id.overflowing_sub(head).0 < BUFFER_SIZE`            ↦ `admit32`, `lenBefore32`
 * `tail.overflowing_sub(slot_id).0 as i32 > 0`               ↦ `hasItem32`
 * `slot_id as usize % BUFFER_SIZE`                            ↦ `index32`
-* `len_before + 1`, `slot_index + (x / N) * N` (plain `+`,`*`: panic on overflow in a checked build) ↦ `cadd`, `cmul`
+* `i32::max(1, slot_id.overflowing_add(1).0.overflowing_sub(head).0 as i32) as u32` ↦ `lenAfter32`
+* `slot_index + (x / N) * N` (plain `+`,`*`: panic on overflow in a checked build) ↦ `cadd`, `cmul`
 * `reloaded_enqueuer_tail.wrapping_sub(1)`                    ↦ `wsub _ 1`
 * `compare_exchange(a, b)` succeeds iff the cell holds the residue `a`.
 
@@ -36,9 +37,7 @@ def step32 (s : St) (t : Nat) : Option St :=
   | .pLoadHead v id rsv =>
       if admit32 id s.head s.N then
         if rsv then some (setThr s t (.rRet id (.reserved (index32 id s.N) (lenBefore32 id s.head))))
-        else match cadd (lenBefore32 id s.head) 1 with          -- `len_before+1`
-             | none => none
-             | some l => some (setThr s t (.pWrite v id l))
+        else some (setThr s t (.pWrite v id (lenBefore32 id s.head)))
       else some (setThr s t (.pRecede v id rsv true))
   -- `enqueuer_tail.compare_exchange(slot_id.overflowing_add(1).0, slot_id)`
   | .pRecede v id rsv _ =>
@@ -48,8 +47,10 @@ def step32 (s : St) (t : Nat) : Option St :=
   | .pWrite v id len => some (setThr (setBuf s (index32 id s.N) v) t (.pPublish v id len))
   -- `tail.compare_exchange(slot_id, slot_id.overflowing_add(1).0)` (spins on failure)
   | .pPublish v id len =>
-      if s.tail = id then some (setThr { s with tail := wadd id 1, accepted := s.accepted ++ [v] } t (.done (.sent len)))
+      if s.tail = id then some (setThr { s with tail := wadd id 1, accepted := s.accepted ++ [v] } t (.pLen id))
       else some s
+  -- `len_after_publishing`: `head.load()`; `i32::max(1, slot_id.overflowing_add(1).0.overflowing_sub(head).0 as i32) as u32`
+  | .pLen id => some (setThr s t (.done (.sent (lenAfter32 id s.head))))
   -- `try_publish_leaked_internal_index`
   | .rPub id idx g =>
       if s.tail = g then
@@ -126,6 +127,7 @@ def imgLoc : Loc → Loc
   | .pRecede v id rsv w => .pRecede v (wrap id) rsv w
   | .pWrite v id len    => .pWrite v (wrap id) len
   | .pPublish v id len  => .pPublish v (wrap id) len
+  | .pLen id            => .pLen (wrap id)
   | .rHold id           => .rHold (wrap id)
   | .rRet id r          => .rRet (wrap id) r
   | .rPub id idx g      => .rPub (wrap id) idx (wrap g)
